@@ -165,7 +165,8 @@ WaitReply(cl, code, op) ==
     IN IF hit = {}
          THEN [cl EXCEPT !.waiters = Append(@, [code |-> code, pid |-> pid, op |-> op])]
          ELSE LET i == Min(hit) IN
-              [cl EXCEPT !.fast = SubSeq(@, 1, i - 1) \o SubSeq(@, i + 1, Len(@)),
+              [Emit(cl, [e |-> "h", k |-> "wait", a |-> IF code = "PUBREC" THEN 80 ELSE 0, b |-> pid, c |-> 1, d |-> 0])
+                  EXCEPT !.fast = SubSeq(@, 1, i - 1) \o SubSeq(@, i + 1, Len(@)),
                          !.ready = Append(@, [op |-> op, code |-> code, rc |-> cl.fast[i].rc, pdig |-> cl.fast[i].pdig])]
 
 \* the continuation that runs when a reply is handed to the operation
@@ -356,7 +357,8 @@ ClientRead ==
             THEN Commit([c EXCEPT !.fast = Append(@, [code |-> p.code, pid |-> p.pid, rc |-> p.rc, pdig |-> p.pdig])], [op |-> "rdeliver"])
             ELSE LET i == Min(hit)
                      wtr == c.waiters[i]
-                     c1 == [c EXCEPT !.waiters = SubSeq(@, 1, i - 1) \o SubSeq(@, i + 1, Len(@))]
+                     c0 == Emit(c, [e |-> "h", k |-> "dispatch", a |-> IF p.code = "PUBREC" THEN 80 ELSE 0, b |-> p.pid, c |-> 1, d |-> 0])
+                     c1 == [c0 EXCEPT !.waiters = SubSeq(@, 1, i - 1) \o SubSeq(@, i + 1, Len(@))]
                  IN Commit(OnReply(c1, net.conn, wtr.op, p.code, p.rc, p.pdig), [op |-> "rdeliver"])
     /\ net' = [net EXCEPT !.b2c = Tail(@)]
     /\ UNCHANGED brk
